@@ -29,6 +29,7 @@ var commands = map[string]func([]string){
 	"mutate":     cmdMutate,
 	"concurrent": cmdConcurrent,
 	"kueku":      cmdKuEku,
+	"cfgprobe":   cmdCfgProbe,
 }
 
 func main() {
